@@ -88,8 +88,7 @@ Proof. vm_compute. reflexivity. Qed.
 (** Validation of the SHA-1 model: FIPS 180 test vector "abc", and the 20 (key, shard) pairs of
     the repository's unit test (12 shards). *)
 Example sha1_vectors :
-  to_hex (sha1 [97; 98; 99]%N) = map (fun c => N.of_nat (Ascii.nat_of_ascii c))
-     (String.list_ascii_of_string "a9993e364706816aba3e25717850c26c9cd0d89d") /\
+  sha1 [97; 98; 99]%N = [169; 153; 62; 54; 71; 6; 129; 106; 186; 62; 37; 113; 120; 80; 194; 108; 156; 208; 216; 157]%N /\
   map (fun k => sha1_shard (Z.of_nat k) 12) (seq 0 20) =
   map Some [4; 7; 8; 3; 6; 0; 0; 10; 3; 11; 1; 7; 4; 4; 11; 2; 5; 0; 8; 3]%N.
 Proof. vm_compute. split; reflexivity. Qed.
